@@ -19,7 +19,9 @@ RULE = ("Hypothesis draws a non-singular, well-conditioned operator tree (produc
         "F-C05-scalar) is never read - they sit only below Product / Kronecker / BlockDiag nodes, which recurse factor by "
         "factor - are judged, not excluded."
         " Further: leaf payloads scaled by 10^+-60 (10^+-7 in single precision; not below Unitary declarations); the"
-        " lazy inverse returned by cola.linalg.inv as (part of) the operand.")
+        " lazy inverse returned by cola.linalg.inv as (part of) the operand."
+        " Round 5: tridiagonal operators with vanishing leading minors, diagonals graded over 16 decades, SPD"
+        " operators of 104 / 130 rows under Lanczos / Arnoldi with Exact / Auto trace (about ten per quick run).")
 ASSUMPTIONS = [
     "tolerance: |logabs - ref| <= tol * max(1, |ref|, n), |sign - ref| <= tol with tol = 1e-8 (f64 trees), 2e-3 (trees containing f32), x100 for Lanczos/Arnoldi paths",
     "inputs are non-singular with cond <~ 1e3 by construction; in-contract refusals (Cholesky/Lanczos on operators not declared PSD/SelfAdjoint) are not failures",
@@ -70,8 +72,27 @@ def cases(draw, tier):
     depth = g.pick([0, 1, 1, 2, 2, 3])
     trait = g.pick(["inv", "inv", "pd", "special"])
     if trait == "special":
-        k = g.pick(["perm", "smul", "tri", "kron", "bd"])
-        if k == "perm":
+        k = g.pick(["perm", "smul", "tri", "kron", "bd", "graded", "graded"])
+        if k == "graded":
+            # Diagonal / Triangular whose diagonal is graded over 16 decades (6 in single precision): nothing vanishes
+            dt = g.dtype()
+            span = 3 if dt in ("f4", "c8") else 8
+            d = np.array([g.pick([-1.0, 1.0, 2.0, -3.0]) * 10.0 ** g.integer(-span, span) for _ in range(n)])
+            if n >= 2:
+                d[0], d[-1] = 2.0 * 10.0 ** span, -3.0 * 10.0 ** -span
+            if dt in gen.CPLX:
+                d = d * np.exp(1j * np.array([g.integer(0, 5) for _ in range(n)]))
+            if g.boolean():
+                tree = {"k": "diag", "d": gen.enc(d.astype(gen.NPDT[dt]))}
+            else:
+                lower = g.boolean()
+                off = g.array((n, n), dt, -1, 1) * min(abs(d))
+                T = (np.tril(off, -1) if lower else np.triu(off, 1)) + np.diag(d)
+                tree = {"k": "tri", "a": gen.enc(T.astype(gen.NPDT[dt])), "lower": lower}
+            k = "done"
+        if k == "done":
+            pass
+        elif k == "perm":
             tree = g.k_perm(n, n)
         elif k == "smul":
             dt = g.dtype()
